@@ -209,17 +209,23 @@ class _Case:
         self.spec = spec
         self.projgen = projgen
         self.model0, self.model1, self.mutations = build_models(spec)
-        self.project0 = projgen.render(self.model0)
-        self.project1 = projgen.render(self.model1)
+        import simcases
+
+        self.project0 = simcases.explicit_project(self.model0)
+        self.project1 = simcases.explicit_project(self.model1)
         self.edits = projgen._edits_between(self.project0, self.project1) if spec["nmut"] else []
         self.resources = self.model1.resources or self.model0.resources
         self.findings: list[dict] = []
         self.counts: dict[str, int] = {}
+        self._buffer = None  # findings of a restart are held back until the restart has been classified
 
     def count(self, key, n=1):
         self.counts[key] = self.counts.get(key, 0) + n
 
     def finding(self, signature, what, **detail):
+        if self._buffer is not None:
+            self._buffer.append((signature, what, detail))
+            return
         if all(f["signature"] != signature for f in self.findings):
             self.findings.append({"signature": signature, "what": what,
                                   "detail": {"spec": self.spec, "mutations": self.mutations, **detail,
@@ -237,6 +243,7 @@ class _Case:
                 sim.close()
                 return None
             sim.apply(self.edits)
+            sim.project.rules = list(self.project1.rules)
         return sim
 
     def build_kwargs(self):
@@ -348,10 +355,29 @@ class _Case:
             for sig, text in commit_invariants(sim):
                 self.finding(sig, f"database left by a kill at {point}: {text}", point=point)
             state = {"interrupted": {lbl for lbl, (st, _) in interrupted.items() if st == RUNNING}}
+            self._buffer = []
             restart = sim.build(njob=self.spec["njob"], resources=self.resources, strict=True,
                                 schedule=_schedule(self.spec["restart_sched"], 7 + int(hashlib.sha1(repr(point).encode()).hexdigest()[:4], 16)),
                                 on_commit=self._restart_observer(point, state))
+            held, self._buffer = self._buffer, None
             self.count("restarts")
+            # F9: a command ran while the row of its step was not RUNNING (the step was redefined by its
+            # re-running creator and reset to PENDING with the job still in flight).  Everything else that
+            # goes wrong in such a restart is a consequence, so it is reported once, under this signature.
+            reset = state["watch"].windows_not_running(restart.runs)
+            if reset:
+                self.count("restarts-with-row-reset-under-running-command")
+                r0 = reset[0]
+                self.finding("running-step-row-reset",
+                             f"restart after a kill at {point}: the command of step '{r0['step']}' (job {r0['job']}) was "
+                             f"running (logical time {r0['window']}) while its step row was in state {r0['state']} at "
+                             f"commit {r0['commit']}: its re-running creator redefined the running step; restart ended "
+                             f"with status {restart.status} / {restart.returncode!r}", point=point, resets=reset[:3],
+                             status=restart.status, error=(restart.error or "")[-1200:],
+                             commands=restart.commands)
+                return
+            for sig, what, detail in held:
+                self.finding(sig, what, **detail)
             if restart.status != "done":
                 sig = "restart-" + restart.status
                 err = restart.error or ""
@@ -397,6 +423,16 @@ class _Case:
                                  f"nor files of the final graph; the uninterrupted build removed them",
                                  point=point, orphans=orphans)
                 rest = [p for p in extra if p not in orphans]
+                planned = {lbl for (lbl,) in sim.query(
+                    "SELECT f.label FROM node AS f JOIN file ON file.node = f.i JOIN node AS c ON f.creator = c.i "
+                    "JOIN step ON step.node = c.i WHERE NOT f.detached AND file.state = 15 AND step.state = 21")}
+                reverted = [p for p in rest if p in planned]
+                if reverted:
+                    self.finding("reverted-outputs-left-after-restart",
+                                 f"after a kill at {point} and the restart, {reverted} remain on disk although they are "
+                                 f"PLANNED outputs of steps that are no longer needed; the uninterrupted build "
+                                 f"removed them", point=point, files=reverted)
+                rest = [p for p in rest if p not in reverted]
                 if rest:
                     self.finding("extra-files-after-restart", f"after a kill at {point} and the restart, {rest} exist "
                                  f"but not after the uninterrupted build", point=point, files=rest)
@@ -423,8 +459,10 @@ class _Case:
 
     def _restart_observer(self, point, state):
         inner = self.observer("restart", point, state)
+        state["watch"] = __import__("simcases").RowWatch()
 
         def on_commit(sim, k):
+            state["watch"](sim, k)
             # a step leaves the watch list once it has succeeded again
             if state["interrupted"]:
                 done = {lbl for (lbl,) in sim.query(
@@ -441,3 +479,126 @@ def run_case(spec: dict) -> dict:
     return {"findings": case.findings, "counts": case.counts, "wall": time.time() - t0,
             "mutations": case.mutations,
             "shape": [len(case.model1.steps), len(case.model1.globbed), bool(case.model1.tree), case.model1.has_sub]}
+
+
+# ---------------------------------------------------------------------------------------------
+# Kernel-side observer: the invariants the restart relies on, on the real database
+# ---------------------------------------------------------------------------------------------
+
+
+class KernelObserver:
+    """After every request of a kernel sequence: no BUILT file behind a PENDING/FAILED producer created
+    by `reset_interrupted` / `completed` / `reset_rerun`, and the postconditions of `reset_interrupted`."""
+
+    def __init__(self, ctx, run):
+        self.ctx = ctx
+
+    def __call__(self, run, op, line, ans):
+        legal = run.legal[-1]
+        if not legal and ans.startswith("ok"):
+            run.tainted = True
+        if getattr(run, "tainted", False) or not ans.startswith("ok"):
+            return
+        ctx = self.ctx
+        con = run.wf.db
+        if op == "reset_interrupted":
+            ctx.stats.count("oracle-reset-interrupted-checked")
+            bad = con.execute(f"SELECT label, state FROM node JOIN step ON step.node = node.i "
+                              f"WHERE state IN ({RUNNING}, {CHECKING}) OR (state = {FAILED} AND NOT detached) "
+                              f"OR _holding != 0").fetchall()
+            for label, st in bad[:2]:
+                ctx.finding(Finding(PID, "reset-interrupted-postcondition",
+                                    f"after reset_interrupted_steps step '{label}' is in state {st} (or holds)",
+                                    {"requests": [kcorr.decode_line(x) for x in run.lines][-15:],
+                                     "protocol_lines": list(run.lines)}))
+        if op in ("completed", "reset_rerun"):
+            ctx.stats.count("oracle-completion-checked")
+            label = bytes.fromhex(line.split(" ")[2].split(":")[1]).decode() if ":" in line.split(" ")[2] else ""
+            rows = con.execute(
+                "SELECT f.label FROM node AS f JOIN file ON file.node = f.i JOIN node AS c ON f.creator = c.i "
+                f"JOIN step ON step.node = c.i WHERE c.kind = 'step' AND c.label = ? AND file.state = {BUILT} "
+                f"AND step.state != {SUCCEEDED}", (label,)).fetchall()
+            for (f,) in rows[:2]:
+                ctx.finding(Finding(PID, "built-product-after-" + op,
+                                    f"after '{kcorr.decode_line(line)[:100]}' the product '{f}' of step '{label}' is BUILT "
+                                    f"although the step is not SUCCEEDED",
+                                    {"requests": [kcorr.decode_line(x) for x in run.lines][-15:],
+                                     "protocol_lines": list(run.lines)}))
+
+
+import kcorr  # noqa: E402
+
+
+async def correspond(ctx):
+    await kcorr.run(ctx, kcorr.ALL_SCOPES, observers=[KernelObserver], salt="c05")
+
+
+# ---------------------------------------------------------------------------------------------
+# Search / replay
+# ---------------------------------------------------------------------------------------------
+
+DESCRIPTIONS = {
+    "orphan-files-after-restart": "F6",
+    "reverted-outputs-left-after-restart": "F6 (revert_optional_steps variant)",
+    "running-step-row-reset": "F9",
+}
+
+
+def _merge(ctx, task, res):
+    st = ctx.stats
+    for k, v in res["counts"].items():
+        st.count("sim:" + k, v)
+    st.programs += 1
+    st.evaluations += res["counts"].get("restarts", 0)
+    st.count("sim:mutations:" + ("+".join(res["mutations"]) or "none"))
+    st.case(("c05", tuple(task["id"]), tuple(res["shape"])), res["counts"].get("restarts", 0) > 0)
+    st.sample({"case": task, "mutations": res["mutations"], "shape(steps,globbed,tree,sub)": res["shape"],
+               "restarts": res["counts"].get("restarts", 0)})
+    for f in res["findings"]:
+        ctx.finding(Finding(PID, f["signature"], f["what"], f["detail"]))
+
+
+async def search(ctx):
+    import simpool
+
+    ncase = ctx.budget(10, 260)
+    specs = [make_spec(ctx.seed, i, ctx.tier) for i in range(ncase)]
+    soft = 55 if ctx.tier == "quick" else 900
+    ran = 0
+    for status, task, res in simpool.run("props.c05", "run_case", specs, deadline_s=soft + 120, soft_s=soft):
+        if status == "ok":
+            ran += 1
+            _merge(ctx, task, res)
+        elif status == "skipped":
+            ctx.stats.count("sim:cases-not-started-in-budget")
+        else:
+            ctx.stats.count("sim:case-" + status)
+            ctx.finding(Finding(PID, "oracle-case-" + status, f"simulated case {task['id']} ended with {status}",
+                                {"spec": task, "error": str(res)[-2000:]}))
+    ctx.extra["sim_cases"] = ran
+    rule = ("one case = one generated project (projgen model with explicit step scripts), optionally a completed "
+            "first build and 1-2 plan/source mutations, one schedule; every commit index and every step action "
+            "boundary of the uninterrupted build is a crash point followed by a strict restart; evaluations = restarts; "
+            "distinct = cases with at least one restart")
+    ctx.stats.rule = (ctx.stats.rule + " | " if ctx.stats.rule else "") + rule
+
+
+async def replay(ctx, detail):
+    import simpool
+
+    d = detail.get("detail", {})
+    sig = detail.get("signature", "")
+    spec = d.get("spec")
+    if spec is None:
+        await search(ctx)
+        return {"reproduced": any(f.signature == sig for f in ctx.findings), "signature": sig}
+    spec = dict(spec)
+    if d.get("point") is not None:
+        spec["only_points"] = [list(d["point"])]
+    found = []
+    for status, task, res in simpool.run("props.c05", "run_case", [spec], deadline_s=600):
+        if status == "ok":
+            found = res["findings"]
+    hit = [f for f in found if f["signature"] == sig]
+    return {"reproduced": bool(hit), "signature": sig, "spec": spec,
+            "what": hit[0]["what"] if hit else None, "other_signatures": sorted({f["signature"] for f in found})}
